@@ -100,11 +100,39 @@ def short_hash(*parts):
     return h.hexdigest()[:10]
 
 
-def scratch_root():
+def scratch_base():
     for d in ("/dev/shm", os.environ.get("TMPDIR") or "/tmp"):
         if os.path.isdir(d) and os.access(d, os.W_OK):
             return d
     return tempfile.gettempdir()
+
+
+def scratch_root():
+    """per-batch parent directory (set by the driver, removed by it at the end), else the base."""
+    d = os.environ.get("RTVERIF_SCRATCH")
+    if d and os.path.isdir(d):
+        return d
+    return scratch_base()
+
+
+def janitor(max_age_s=1800):
+    """removes scratch directories that a killed earlier batch left behind."""
+    import time
+
+    base = scratch_base()
+    now = time.time()
+    try:
+        names = os.listdir(base)
+    except OSError:
+        return
+    for n in names:
+        if n.startswith("rtverif-"):
+            p = os.path.join(base, n)
+            try:
+                if now - os.path.getmtime(p) > max_age_s:
+                    shutil.rmtree(p, ignore_errors=True)
+            except OSError:
+                pass
 
 
 class Scratch:
